@@ -156,8 +156,10 @@ def np_dtype(cols, unicode_ok=False, byteorder='<'):
     dt = []
     for c in cols:
         k = c['kind']
-        if k in INT_RANGE or k in ('f4', 'f8'):
-            k = byteorder + k
+        if k == 'i8' and byteorder == 'q':
+            k = np.dtype(np.longlong)            # the same 64-bit integers under their C name (dtype.char 'q', dtype.str '<i8')
+        elif k in INT_RANGE or k in ('f4', 'f8'):
+            k = ('<' if byteorder == 'q' else byteorder) + k
         if k in ('S', 'E'):
             base = 'S%d' % c['width']
         elif k == 'V':
